@@ -814,6 +814,16 @@ def _resolve_action_conflicts(
                 head_groups.update({flow_state.loop_id: [head]})
 
         for group in head_groups.values():
+            # Resolving the conflicts of a previous group can abort flows of this group
+            # (e.g. children of a flow that lost): their heads must not act anymore
+            group = [
+                head
+                for head in group
+                if is_active_flow(get_flow_state_from_head(state, head))
+                and head.status == FlowHeadStatus.ACTIVE
+            ]
+            if not group:
+                continue
             max_length = max(len(head.matching_scores) for head in group)
             ordered_heads = sorted(
                 group,
